@@ -693,12 +693,18 @@ def run_structure(S, spec):
                 st["pos"] = pos + 1
             yield row
 
-    doc = Doc({"B1": Sheet(gen)})
+    rows_it = gen()
+    doc = Doc({"B1": Sheet(lambda: rows_it)})
     err = None
     try:
         inp = parse_ods(cfg, "B1", doc)
     except RP2Error as e:
         err = e
+    if err is None:
+        # a parser that returns before the end of the sheet has skipped rows: the rest of the sheet is realised as well, so
+        # that a fault sitting in the part it never looked at counts
+        for _row in rows_it:
+            pass
     seq = ",".join(kinds)
     if err is None:
         # the whole sheet was consumed: end-of-sheet faults
